@@ -131,7 +131,8 @@ class WorkDir:
 
 def coqc(file, cwd, extra_q=(), timeout=900):
     """Compile one .v file; returns (rc, output)."""
-    args = ['timeout', str(timeout), 'coqc', '-w', '-notation-overridden', '-Q', COQ, 'Ubx']
+    # address-space cap (12 GB): a proof script whose evaluation blows up on a rewritten kernel fails instead of exhausting the machine
+    args = ['prlimit', '--as=12000000000', 'timeout', str(timeout), 'coqc', '-w', '-notation-overridden', '-Q', COQ, 'Ubx']
     for d, n in extra_q:
         args += ['-Q', d, n]
     args.append(file)
@@ -393,6 +394,11 @@ def tie_b_items(res, workdir):
     """Tie B for the field codecs: Item / Padding / CH pack and unpack of ubxlib/types.py, and the struct format of every
     integer field class."""
     return tie_b_generic(res, workdir, 'items', 'emit_items_v', 'ItemKernels.v', 'BridgeItems.v', 'Item/Padding/CH pack/unpack')
+
+
+def tie_b_helpers(res, workdir):
+    """Tie B for the straight-line convenience setters (C17) and the enable/disable bit of a CFG-GNSS flags item."""
+    return tie_b_generic(res, workdir, 'helpers', 'emit_helpers_v', 'HelperKernels.v', 'BridgeHelpers.v', 'convenience setters')
 
 
 def tie_b_gpsd(res, workdir):
